@@ -133,8 +133,11 @@ func VerifH_C12_foreach_close_anytime() {
 	at := verifrt.Choice("closeAt", 3)
 	if at >= 1 {
 		en := any(nil)
-		if verifrt.Choice("enabled", 2) == 1 {
+		switch verifrt.Choice("enabled", 3) {
+		case 1:
 			en = false
+		case 2:
+			en = "no" // the run loop hands literals over as text; the bool schema accepts this spelling
 		}
 		verifrt.Assert(r.ProvideStageInput("enabling", map[string]any{"enabled": en}) == nil, "enabling input accepted")
 	}
